@@ -70,7 +70,7 @@ func runSession(w *core.W, stmts []string, opt sess.Options) {
 		w.Fail(payloadOf(stmts), o.Sig, o.Detail)
 		return
 	}
-	if o.Judged > 0 && o.Skipped == "" {
+	if (o.Judged > 0 && o.Skipped == "") || (opt.TotalityOnly && o.Executed > 0) {
 		w.NonTrivial()
 	}
 }
